@@ -94,10 +94,116 @@ def run_chain(case):
             "nontrivial": "chain-%d-%s" % (n, case["kind"])}
 
 
+def ctxraise_case(when, nest, handler, sibling):
+    return {"special": "ctxraise", "when": when, "nest": nest, "handler": handler, "sibling": sibling}
+
+
+def run_ctxraise(case):
+    """a context whose pause() or resume() raises while the scheduler suspends / continues the task that entered it
+    (C08: failure points 'context pause/resume'; C06).  Outside the machine's language (its contexts never raise
+    except NonAsyncContext), so the expectation is stated directly: the task fails with THAT exception, a parent with
+    try/except can handle it, nothing else escapes, and the scheduler is clean afterwards."""
+    import asynq
+    from asynq import batching, contexts
+
+    class B(batching.BatchBase):
+        def _try_switch_active_batch(self):
+            if cur[0] is self:
+                cur[0] = B()
+
+        def _flush(self):
+            for it in self.items:
+                it.set_value(it.payload)
+
+    class I(batching.BatchItemBase):
+        def __init__(self, payload):
+            batching.BatchItemBase.__init__(self, cur[0])
+            self.payload = payload
+
+    cur = [None]
+    cur[0] = B()
+    boom = RuntimeError("context hook raises")
+    log = []
+
+    class Raising(contexts.AsyncContext):
+        def __init__(self):
+            self.resumes = 0
+            self.pauses = 0
+
+        def resume(self):
+            self.resumes += 1
+            if case["when"] == "resume" and self.resumes == 2:
+                raise boom
+
+        def pause(self):
+            self.pauses += 1
+            if case["when"] == "pause" and self.pauses == 1:
+                raise boom
+
+    class Plain(contexts.AsyncContext):
+        def resume(self):
+            log.append("R")
+
+        def pause(self):
+            log.append("P")
+
+    @asynq.asynq()
+    def inner():
+        if case["nest"] == 0:
+            with Raising():
+                v = yield I(1)
+        elif case["nest"] == 1:
+            with Plain():
+                with Raising():
+                    v = yield I(1)
+        else:
+            with Raising():
+                with Plain():
+                    v = yield I(1)
+        return v
+
+    @asynq.asynq()
+    def other():
+        return (yield I(2))
+
+    @asynq.asynq()
+    def root():
+        futs = [inner.asynq()] + ([other.asynq()] if case["sibling"] else [])
+        if case["handler"]:
+            try:
+                yield futs
+            except RuntimeError as e:
+                return "handled" if e is boom else "handled-other"
+            return "no-error"
+        yield futs
+        return "no-error"
+
+    asynq.scheduler.reset()
+    sched = asynq.scheduler.get_scheduler()
+    try:
+        out = root()
+    except BaseException as e:
+        out = "raised-boom" if e is boom else "raised-" + type(e).__name__
+    clean = 1 if (len(sched._tasks) == 0 and sched.active_task is None) else 0
+    # the next computation on the same thread
+    try:
+        nxt = other()
+    except BaseException as e:
+        nxt = "raised-" + type(e).__name__
+    ok_next = 1 if nxt == 2 else 0
+    asynq.scheduler.reset()
+    lines = ["(case ctxraise %d %s %d %d %d)" % (case["id"], case["when"], case["nest"], case["handler"], case["sibling"]),
+             "(result %s %d %d)" % (out, clean, ok_next), "(end)"]
+    return {"lines": lines, "features": ["ctxraise=" + case["when"]], "nontrivial": "ctxraise-%s-%d-%d-%d" % (
+        case["when"], case["nest"], case["handler"], case["sibling"])}
+
+
 def run_case_for(pid, case):
     from corerun import run_program
     if case.get("special") == "chain":
         return run_chain(case)
+    if case.get("special") == "ctxraise":
+        return run_ctxraise(case)
     opts = dict(case.get("opts", {}))
     ms = case.get("cfg", {}).get("maxStack")
     if ms is not None:
@@ -134,7 +240,7 @@ def run_case_for(pid, case):
 
 def shrink_case(case):
     if case.get("special"):
-        if case["n"] > 10:
+        if case.get("n", 0) > 10:
             yield dict(case, n=case["n"] // 2)
         return
     tops = case["tops"]
